@@ -29,9 +29,11 @@ ASSUMPTIONS = [
 ]
 TIMEOUT = {"quick": 1800, "thorough": 7200}
 MIN_COUNTERS = {"quick": {"assignments_checked": 900, "static_mask_assignments": 20, "string_forms_checked": 30,
-                          "system_assignments_checked": 40, "nonzero_pairs_min": 1, "partial_specifications_checked": 15},
+                          "system_assignments_checked": 40, "nonzero_pairs_min": 1, "partial_specifications_checked": 15,
+                          "assignments_on_parameter_batches": 200, "system_dyn_default_checks": 4},
                 "thorough": {"assignments_checked": 30000, "static_mask_assignments": 100, "string_forms_checked": 150,
-                             "system_assignments_checked": 400, "nonzero_pairs_min": 1, "partial_specifications_checked": 60}}
+                             "system_assignments_checked": 400, "nonzero_pairs_min": 1, "partial_specifications_checked": 60,
+                             "assignments_on_parameter_batches": 1000, "system_dyn_default_checks": 4}}
 GROUPS = ["nn", "theta", "phi", "kappa"]
 TERMS = {"ode": ["dyn_loss", "initial_condition", "observations"],
          "statio": ["dyn_loss", "norm_loss", "boundary_loss", "observations"],
@@ -53,6 +55,9 @@ def gen_cases(tier, seed):
         for c in range(nchunk if full else 1):
             cases.append(dict(mode="enum", kind=kind, d=0 if kind == "ode" else 1, full=full, chunk=c, nchunk=nchunk if full else 1,
                               nrand=300, seed=seed, n_out=1, ncomp=2, cost=3.0 if full and nbits > 9 else 1.0))
+        # the same enumeration (random sample) on a batch carrying per-sample equation parameters
+        cases.append(dict(mode="enum", kind=kind, d=0 if kind == "ode" else 1, full=False, chunk=0, nchunk=1, nrand=120 if q else 600,
+                          seed=seed + 17, n_out=1, ncomp=2, pbatch=True, cost=1.5))
         for part in range(1 if q else 3):
             cases.append(dict(mode="static", kind=kind, d=0 if kind == "ode" else 1, n=8 if q else 17, seed=seed + 1000 * part,
                               n_out=1, ncomp=2, cost=4.0))
@@ -90,6 +95,9 @@ def run_case(case, rec):
     loss = guard.call(pr.loss, dk="both")
     params = pr.params
     batch = pr.batch()
+    if case.get("pbatch"):
+        batch = pr.batch(param_batch={"kappa": -rng.uniform(0.4, 1.6, (3, 1))})
+        rec.count("assignments_on_parameter_batches", 0)
     DK = type(loss.derivative_keys)
     dk_name = {"initial_condition": "initial_condition", "dyn_loss": "dyn_loss", "observations": "observations",
                "norm_loss": "norm_loss", "boundary_loss": "boundary_loss"}
@@ -177,7 +185,9 @@ def run_case(case, rec):
             l2 = eqx.tree_at(lambda l: l.derivative_keys, loss, mask_tree(bits, True))
             vals, jac = guard.call(obs_jit, l2, params, batch)
             rec.count("assignments_checked")
-            check(bits, vals, jac, "mask-as-data/%s" % kind, code)
+            if case.get("pbatch"):
+                rec.count("assignments_on_parameter_batches")
+            check(bits, vals, jac, "mask-as-data/%s%s" % (kind, "/param-batch" if case.get("pbatch") else ""), code)
         rec.set_sample(kind=kind, mode="enum", n_assignments=len(list(codes)), terms=terms, groups=GROUPS,
                        all_selected_term_values=vals0[1:], nonzero_pairs=sum(nz.values()))
         return
@@ -360,6 +370,21 @@ def run_system(case, rec, rng):
     zero_bits = {(n, t, g): 0 for n in names for t in TERMS["nonstatio"] for g in GROUPS}
     vals_base, jac_base = guard.call(obs_jit, with_masks(zero_bits), pd, batch)
     base = {t: blocks(jac_base, 1 + i) for i, t in enumerate(tnames)}  # dyn part only (network, default keys)
+    # the system's dynamic term uses the default specification (network parameters only): its gradient with respect
+    # to every equation parameter is exactly zero, also when the batch carries per-sample parameters
+    idyn = tnames.index("dyn_loss")
+    pbatch = sp.batch(param_batch={"kappa": -rng.uniform(0.4, 1.6, (3, 1))})
+    for lab, b_ in (("", batch), ("/param-batch", pbatch)):
+        _, jb = (vals_base, jac_base) if lab == "" else guard.call(obs_jit, with_masks(zero_bits), pd, b_)
+        blk = blocks(jb, 1 + idyn)
+        rec.count("system_dyn_default_checks")
+        if not any(float(np.max(np.abs(blk[("nn", n)]))) > 1e-7 for n in names):
+            rec.inconcl("system dynamic term has no gradient with respect to the networks")
+        for g in ("theta", "phi"):
+            if np.any(blk[g] != 0.0):
+                rec.violation("system/%s/dyn-term/default-keys/eq-param-gradient-nonzero%s" % (kind, lab),
+                              "system dynamic term: d dyn_loss / d %s = %s with the default (network only) specification"
+                              % (g, blk[g][:3]))
     for n in names:
         bits = dict(zero_bits)
         for t in TERMS["nonstatio"]:
